@@ -45,10 +45,12 @@ ASSUMPTIONS = [
     "harness/src/bin/loadfuzz.rs::coq_json); text serde rejects must be rejected with BadJson by the loader",
     "stack exhaustion is not expressible in the model: nesting depth is bounded by serde_json's recursion "
     "limit (128) for the std loader; the streaming loader has no bound (exploration only)",
-    "save-state loading (StoryState::load_json, Flow, CallStack, VariablesState): no totality theorem in "
-    "Props/C15.v yet (slot); the executable model Engine/Save.v (per-site table Gen/SaveGen.v, regenerated) is "
-    "compared with load_state on a stratified sample of the value-level save mutants (outcome only), all "
-    "mutants run on both loader builds of the implementation",
+    "save-state loading (StoryState::load_json_obj, Flow::from_json, CallStack::load_json, Thread::from_json, "
+    "VariablesState::load_json): theorems load_state_total / load_state_never_panics (Shell/LoadTotal.v) over the "
+    "executable model Engine/Save.v — for every world and every document no panic, given that every reachable site "
+    "of the regenerated tables Gen/SaveGen.v and Gen/LoadGen.v is off (an unwrap that comes back turns a site on "
+    "and the instance for the current code stops checking); the model is compared with load_state on a stratified "
+    "sample of the value-level save mutants (outcome only), all mutants run on both loader builds of the implementation",
     "Story::new also runs the `global decl` container through the engine; panics there are reported under "
     "story-new-engine-panic and are outside the loader model",
 ]
